@@ -72,9 +72,11 @@ def fresh_per_iteration(run, rule, ci_name, mod, fn, describe=True):
                 out = []
                 for e, pol in enclosing_conditions(fn, c):
                     if isinstance(e, ast.AST) and any(x is e for x in ast.walk(lp)) and pol != 'in-loop':
-                        out.append(norm(e))
+                        out.append(('' if pol else 'not ') + norm(e))
                 return out
-            uncond = [c for c in inside if not conds_within(c)]
+            # the creation runs whenever the object is handed on: every condition around the creation also surrounds each escape
+            esc_conds = [set(conds_within(x)) for x in escapes]
+            uncond = [c for c in inside if all(set(conds_within(c)) <= ec for ec in esc_conds)]
             K = '%s|%s|%s|shared-object:%s' % (mod.name, ci_name, fn.name, name)
             if uncond:
                 run.ok(rule, '%s.%s %s' % (ci_name, fn.name, name), 'created in every iteration of the loop that stores it')
